@@ -71,7 +71,9 @@ class _Plain(Domain):
 
     def resolve_call(self, st, call, walker):
         r = walker.default_resolve(st, call)
-        if r is None or r[0].name in self.PRIM:
+        if r is None:
+            return walker.resolve_helper(st, call)
+        if r[0].name in self.PRIM:
             return None
         return r
 
@@ -183,6 +185,41 @@ def check_add_processor(program, rep):
               'the previous processor of this type is removed after the new '
               'one was inserted (the filter by type drops the new one too)',
               line=late_replace[0].lineno if late_replace else f.node.lineno)
+    def resolve_key(k):
+        """Follow a module-level alias `name = <expr>` and imported names."""
+        if k is None:
+            return None
+        mod = f.module
+        for _ in range(3):
+            try:
+                n = ast.parse(k, mode='eval').body
+            except SyntaxError:
+                return k
+            if isinstance(n, ast.Name):
+                for stt in mod.tree.body:
+                    if isinstance(stt, ast.Assign) and any(
+                            isinstance(t, ast.Name) and t.id == n.id
+                            for t in stt.targets):
+                        k = norm(stt.value)
+                        break
+                else:
+                    return k
+            else:
+                break
+        try:
+            n = ast.parse(k, mode='eval').body
+        except SyntaxError:
+            return k
+        if isinstance(n, ast.Call) and len(n.args) == 1 and isinstance(
+                n.args[0], ast.Constant) and n.args[0].value == 'priority':
+            d = dotted(n.func) or ''
+            r = program.lookup(mod, d)
+            if d in ('operator.attrgetter', 'attrgetter') or (
+                    r and r[0] == 'external'
+                    and r[1] == 'operator.attrgetter'):
+                return "operator.attrgetter('priority')"
+        return k
+    keys = {resolve_key(k) for k in keys}
     good_keys = {f'lambda p: p.priority', "operator.attrgetter('priority')",
                  "attrgetter('priority')"}
     bad = [k for k in keys if k is None or (
@@ -326,6 +363,29 @@ def check_upper_bound(f, rep):
             continue
         iff = ifs[0]
         elem = {f'{A}[{mid}]', f'key({A}[{mid}])'}
+        # a local holding the (keyed) middle element
+        for st in lp.body:
+            if isinstance(st, ast.Assign) and isinstance(
+                    st.targets[0], ast.Name) and st.targets[0].id != mid:
+                v = st.value
+                alts = [v.body, v.orelse] if isinstance(v, ast.IfExp) else [v]
+                if all(norm(x) in elem for x in alts):
+                    elem = elem | {st.targets[0].id}
+            if isinstance(st, ast.If) and st is not iff:
+                asg = [x for b in (st.body, st.orelse) for x in b]
+                if asg and all(isinstance(x, ast.Assign) and isinstance(
+                        x.targets[0], ast.Name) and norm(x.value) in elem
+                        for x in asg) and len({x.targets[0].id
+                                               for x in asg}) == 1:
+                    elem = elem | {asg[0].targets[0].id}
+        ifs = [st for st in lp.body if isinstance(st, ast.If) and any(
+            isinstance(x, ast.Assign) and norm(x.targets[0]) in ('lo', 'hi')
+            for x in ast.walk(st))]
+        if len(ifs) != 1:
+            rep.inconclusive('C07.stable', site, lp, 'search loop shape not '
+                             'understood', line=lp.lineno)
+            continue
+        iff = ifs[0]
         t = iff.test
         rel = None      # 'x<e' strict upper-bound test
         if isinstance(t, ast.Compare) and len(t.ops) == 1:
